@@ -50,7 +50,7 @@ def menus():
         ("blocks",): [ABSENT, None, "aa", [], [5], [None], ["zz"], [""], [[]], {}, ["aa", 5]],
         ("brothers",): [ABSENT, None, "aa", [], "LEN+1", "LEN-1", [5, 5], [[5], []], [[""], []],
                         [["zz"], []], [None, None], {}, [["aa", None], []]],
-        ("udValue",): [ABSENT] + HEX_BAD + ["SHORT", "LONG", "UPPER"],
+        ("udValue",): [ABSENT] + HEX_BAD + ["SHORT", "LONG", "UPPER", "0xPREFIX", "0XPREFIX", "0xSHORT"],
     }
     return M
 
@@ -109,6 +109,11 @@ class C02(Check):
             "v1-sign": (R["v1-sign"], True),
             "v1-getPubKey": (R["v1-getPubKey"], True),
         }
+        # the commands that exist only in the current protocol, sent to a legacy-mode manager
+        for k in ("advance", "update", "reset", "state", "params", "signerHeartbeat", "uiHeartbeat"):
+            t = dict(self.templates[k][0])
+            t["version"] = 1
+            self.templates["v1-" + k] = (t, True)
         self.doc, self.generic = fwtables.doc_codes("v5")
 
     def bounds(self):
@@ -150,9 +155,10 @@ class C02(Check):
                 val = [[] for _ in range(len(t["blocks"]) + 1)]
             elif val == "LEN-1":
                 val = [[] for _ in range(len(t["blocks"]) - 1)]
-            elif val in ("SHORT", "LONG", "UPPER"):
+            elif val in ("SHORT", "LONG", "UPPER", "0xPREFIX", "0XPREFIX", "0xSHORT"):
                 u = t["udValue"]
-                val = {"SHORT": u[2:], "LONG": u + "aa", "UPPER": u.upper()}[val]
+                val = {"SHORT": u[2:], "LONG": u + "aa", "UPPER": u.upper(), "0xPREFIX": "0x" + u,
+                       "0XPREFIX": "0X" + u, "0xSHORT": "0x" + u[2:]}[val]
             if len(path) == 1:
                 if val == ABSENT:
                     doc.pop(p0, None)
